@@ -294,6 +294,8 @@ class PauliPolynomial(PauliList):
         return txt
 
     def __getitem__(self, item):
+        if isinstance(item, (int, numpy.integer)):
+            item = [item] # a single term stays a (one-term) polynomial
         return PauliPolynomial(self.gs[item], self.ps[item]).set_cs(self.cs[item])
 
     def __neg__(self):
